@@ -8,6 +8,19 @@
 #include <cstdlib>
 #include <new>
 
+inline void* sim_aligned_alloc_nothrow(std::size_t n)
+{
+  std::size_t align = n >= 192 ? 4096 : 64;
+  std::size_t r = (n + align - 1) & ~(align - 1);
+  if (r == 0)
+    r = align;
+  if (r < n || r > ((std::size_t)1 << 28))
+    return nullptr; // the simulated host has no room for requests above 256 MiB
+  void* p = std::aligned_alloc(align, r);
+  if (p)
+    __builtin_memset(p, 0xA5, r);
+  return p;
+}
 inline void* sim_aligned_alloc(std::size_t n)
 {
   // glibc's memmove also picks its copy direction for blocks > 8 vectors from the page offset of
@@ -17,6 +30,8 @@ inline void* sim_aligned_alloc(std::size_t n)
   std::size_t r = (n + align - 1) & ~(align - 1);
   if (r == 0)
     r = align;
+  if (r < n || r > ((std::size_t)1 << 28))
+    throw std::bad_alloc();
   void* p = std::aligned_alloc(align, r);
   if (!p)
     throw std::bad_alloc();
